@@ -137,6 +137,43 @@ def recAlloc (s : Core) (x : RAlloc) : Core × Bool :=
   | none => (s, false)
   | some a => if s.recAllocOK a x then (s.recAllocDo a x, true) else (s, false)
 
+/-- partition.UpdateAllocation for a key the application knows as an outstanding ask and the shim now reports as bound
+    (same resource): the branch "transitioning from requested to allocated" — Application.AllocateAsk (pending moves),
+    Queue.IncAllocatedResource without limit, Node.AddAllocation forced with the application's own object,
+    Application.AddAllocation.  The ledger effect of `Core.schedAlloc` without its capacity and quota checks. -/
+def recBind (s : Core) (x : RAlloc) : Core × Bool :=
+  match s.findApp x.app, s.findNode x.node with
+  | some a, some _ =>
+    match a.items.find? (fun i => i.key == x.key && i.inReq && !i.allocated) with
+    | none => (s, false)
+    | some i =>
+      if isZero (some x.res) || !(strictlyGreaterThanZero (some x.res)) then (s, false) else
+      let s1 := updNode s x.node (fun n => { n with
+        allocs := n.allocs ++ [{ key := x.key, app := x.app, res := i.res, foreign := false, ph := i.ph }],
+        allocated := addX n.allocated i.res, available := prune (subX n.available i.res) })
+      let s2 := updQueues s1 (pathChain s a.queue) (fun q => { q with allocated := addX q.allocated i.res, pending := decPendingRes q.pending i.res })
+      let s3 := updApp s2 x.app (fun a =>
+        let items := a.items.map (fun y => if y.key == x.key then { y with allocated := true, bound := true, node := x.node } else y)
+        let pending := prune (subX a.pending i.res)
+        if i.ph then
+          let aph := addX a.allocatedPh i.res
+          let st := if equals (some aph) (some a.phAsk) false then fireState a.state .run else a.state
+          { a with items := items, pending := pending, allocatedPh := aph, state := st,
+                   log := if st != a.state then a.log ++ [st] else a.log }
+        else
+          let st := fireState a.state .run
+          { a with items := items, pending := pending, allocated := addX a.allocated i.res, state := st,
+                   log := if st != a.state then a.log ++ [st] else a.log })
+      ({ s3 with allocations := s3.allocations + 1, phAllocations := if i.ph then s3.phAllocations + 1 else s3.phAllocations }, true)
+  | _, _ => (s, false)
+
+/-- partition.UpdateAllocation for an allocation reported with its node: the recovery branch for a key the application
+    does not know, the transition branch for a key it holds as an outstanding ask -/
+def recPlaced (s : Core) (x : RAlloc) : Core × Bool :=
+  match s.findApp x.app with
+  | none => (s, false)
+  | some a => if a.items.any (·.key == x.key) then s.recBind x else s.recAlloc x
+
 /-- handleForeignAllocation for a new key: accepted iff the node is registered -/
 def recForeign (s : Core) (key node : String) (res : Res) : Core × Bool :=
   if s.foreign.contains key then (s, false) else
